@@ -67,8 +67,8 @@ CODE_SWEEP = (
 )
 
 
-QUICK_BUDGET = {"cases": 300, "deadline_s": 170, "case_timeout_s": 150, "floors": {"rows_checked": 246, "codes_covered_events": 59, "sacct_batches_checked": 2, "noacct_checked": 10, "pool_rows": 6}}
-THOROUGH_FACTOR = 24  # thorough = the same workload with 24x the cases (floors scale along)
+QUICK_BUDGET = {"cases": 600, "deadline_s": 170, "case_timeout_s": 150, "floors": {"rows_checked": 492, "codes_covered_events": 59, "sacct_batches_checked": 2, "noacct_checked": 10, "pool_rows": 6}}
+THOROUGH_FACTOR = 12  # thorough = the same workload with 12x the cases (floors scale along)
 
 
 def budget(tier):
